@@ -6,6 +6,7 @@ import (
 	"strings"
 	"sync"
 	"testing"
+	"time"
 
 	"verifharness/evid"
 
@@ -88,7 +89,25 @@ func genC17(t *rapid.T) *c17Scenario {
 	others := []string{"ann", "bob"}
 	n := rapid.IntRange(0, 12).Draw(t, "nsteps")
 	for i := 0; i < n; i++ {
-		switch rapid.SampledFrom([]string{"clientnick", "clientnick", "forced", "other", "other", "traffic", "toggle_tracking"}).Draw(t, "step") {
+		switch rapid.SampledFrom([]string{"clientnick", "clientnick", "forced", "other", "other", "traffic", "toggle_tracking", "reconnect"}).Draw(t, "step") {
+		case "reconnect":
+			// the link drops and the same client registers again; while it is down the application may
+			// put another nick into Config().Me for the next attempt. Whatever nick the client then
+			// registers with, the server welcomes it under that nick.
+			if sc.Tracking && sc.JoinChan {
+				continue
+			}
+			st := c17Step{Kind: "reconnect"}
+			if rapid.Bool().Draw(t, "edit_nick") {
+				st.Nick = rapid.SampledFrom([]string{"edited", "Edited2", "me"}).Draw(t, "edited_nick")
+				if st.Nick == others[0] || st.Nick == others[1] {
+					continue
+				}
+			}
+			sc.Steps = append(sc.Steps, st)
+			if st.Nick != "" {
+				prev, cur = cur, st.Nick
+			}
 		case "toggle_tracking":
 			// switching state tracking on or off on the live client (it is on no channel, or about to
 			// forget them) must not make it forget who it is
@@ -279,6 +298,31 @@ func runC17(sc *c17Scenario) *Violation {
 			} else {
 				tc.C.EnableStateTracking()
 			}
+		case "reconnect":
+			done := make(chan struct{})
+			go func() { tc.C.Close(); close(done) }()
+			select {
+			case <-done:
+			case <-time.After(stallTimeout()):
+				return violationf("C17", "%s: Close did not return", where)
+			}
+			waitCond(stallTimeout(), func() bool { n, _, _ := connGoroutines(tc.C); return n == 0 })
+			if st.Nick != "" {
+				tc.C.Config().Me.Nick = st.Nick // (no Me() call in between)
+			}
+			if err := tc.connect(); err != nil {
+				return violationf("C17", "%s: reconnect: %v", where, err)
+			}
+			conn, pos = tc.conn(), 0
+			reg, v := newNickLines()
+			if v != nil {
+				return v
+			}
+			if len(reg) != 1 {
+				return violationf("C17", "%s: registration on the new connection sent NICK %q, want exactly one", where, reg)
+			}
+			cur = reg[0]
+			conn.SendLine(fmt.Sprintf(":irc.server 001 %s :Welcome back %s!ident@client.host", cur, cur))
 		case "traffic":
 			conn.SendLine(":ann!a@h PRIVMSG " + cur + " :hello " + cur)
 			conn.SendLine(":irc.server NOTICE " + cur + " :NICK " + cur + "x")
